@@ -113,6 +113,7 @@ T_FlushEnd ==
     \* flush was given up (the retry terminates it)
     /\ (J01 /\ ~cancelled /\ ~failing /\ E.st = "ok") => ~wopen
     /\ (J14 /\ failing => E.st \in {"err", "ok"})      \* never a panic; "ok" only if the failure point was not reached
+    /\ (J14 /\ failing /\ "hit" \in DOMAIN E /\ E.hit => E.st # "ok")   \* a write of this call failed: the call says so
     /\ queued' = 0 /\ wired' = 0 /\ closed' = FALSE /\ judged' = TRUE /\ cancelled' = FALSE /\ failing' = FALSE
     /\ UNCHANGED <<ps, chan, nr, typ, wopen>>
 
